@@ -306,7 +306,7 @@ class SdoClient {
       CHECK(c, guard < 3000, "blk-dl-progress", "block download makes no progress");
       uint32_t nseg = std::min<uint32_t>(blksize, total - done);
       int lost = -1;
-      if (res.losses < max_losses && nseg >= 2 && c.t.chance(90)) { lost = (int)c.t.below(nseg - 1); res.losses++; }   // index within the sub-block, never the last
+      if (res.losses < max_losses && nseg >= 2 && c.t.chance(150)) { lost = (int)c.t.below(nseg - 1); res.losses++; }   // index within the sub-block, never the last
       uint32_t good = nseg; if (lost >= 0) good = (uint32_t)lost;
       std::vector<Frame> ack;
       for (uint32_t i = 0; i < nseg; i++) {
